@@ -146,6 +146,17 @@ CHECKS = {
              "and get_quantizers(), and takes the bitwise comparison with the stock Keras layer (incl. RNN/LSTM/GRU "
              "and layers without quantizers) as a recorded flag.",
         design="7 C11"),
+    "C15": dict(
+        spec="BNFold.tla (+ QLayer.tla) + MC_BNFold + Trace_BNFold",
+        text="TLC proves the folding algebra (conv with folded kernel + folded bias = conv followed by batch "
+             "normalisation) on all tiny instances for both layer kinds; real QConv2DBatchnorm / "
+             "QDepthwiseConv2DBatchnorm layers (both folding modes, use_bias/scale/center, geometries, with and "
+             "without quantizers via recording proxies) are called at inference on integer-coded data with exact "
+             "rsqrt statistics and TLC recomputes get_folded_weights(), what the kernel quantizer received, and the "
+             "output exactly; equality with the stock Conv->BN pair, unfold_model and "
+             "model_quantize(enable_bn_folding) on branched models are recorded bitwise comparisons judged in the "
+             "same trace.",
+        design="7 C15"),
 }
 
 
